@@ -777,7 +777,16 @@ func (w *World) Add(bd BlockDesc) int {
 					slot = consensus.MaxNumOfValidators - 1
 				}
 			}
-			blk.SupLinks.AddSupLink(src.Height, sh, s, slot)
+			srcHeight := src.Height
+			switch sd.Bad {
+			case "unknown-source": // a link from a checkpoint nobody has, properly signed by the validator
+				sh = bc.NewHash([32]byte{0xee, byte(sd.Validator), byte(idx), 0x01})
+				s = Key(key).Sign(VoteMessage(sh, hash))
+			case "wrong-source-height": // the right source hash under another height, properly signed
+				s = Key(key).Sign(msg)
+				srcHeight += uint64(1 + abs(sd.Validator)%3)
+			}
+			blk.SupLinks.AddSupLink(srcHeight, sh, s, slot)
 		}
 		w.Blocks = w.Blocks[:idx]
 	}
